@@ -113,6 +113,13 @@ def run(shard, ctx):
                 check_string(ctx, "".join(t))
                 n += 1
         ctx.note_exhaustive("strings over %r up to length %d" % (HOSTILE, shard["maxlen"]), n)
+        for hs in T.HOSTILE_STRINGS:
+            check_string(ctx, hs)
+            for nm in ("F#", "Bbb", "G"):
+                check_string(ctx, nm + hs[1:] if hs[0] in "Cc" else nm + hs)
+        # very long names (a thousand and more accidentals, pure and mixed): still names, with the same clauses
+        for nm in ("C" + "#" * 1200, "B" + "b" * 1500, "E" + "#b" * 800, "G" + "b#" * 1100 + "b", "A" + "#" * 5000):
+            check_name(ctx, nm)
         rng = ctx.rng("unicode")
         pools = ["ABCDEFG#b", "abcdefgh#b", "CDE#b♭♯\U0001d12a", "0123456789-", " \t\n", "C#b" * 3]
         for i in range(shard["random"]):
